@@ -43,11 +43,13 @@ def ops_of(kind, tier):
                     ("({a,b},{c,d})", "@({0, 1}, {0, 1})", kind),
                     ("(i,{c,d})", "@(0, {0, 1})", ("V", d - 1)),
                     ("transposed", "@.transposed()", kind), ("~", "(~@)", kind),
-                    ("diagonal", "@.diagonal()", ("V", d - 1)), ("flatted", "@.flatted()", ("V", d - 1))]
+                    ("diagonal", "@.diagonal()", ("V", d - 1)), ("flatted", "@.flatted()", ("V", d - 1)),
+                    ("reindexed(i,j)", "@.reindexed(1, 1)", kind)]
         if d <= 3:
             out += [("partitioned", "@.partitioned(1)", ("V", d + 1)), ("chunked", "@.chunked(1)", ("V", d + 1))]
+        out += [("reindexed", "@.reindexed(1)", kind)]
         if tier == "thorough":
-            out += [("reindexed", "@.reindexed(1)", kind), ("cend", "@.cend()", ("It", d)),
+            out += [("cend", "@.cend()", ("It", d)),
                     ("range", "@.range({0, 1})", kind), ("sliced3", "@.sliced(0, 1, 1)", kind),
                     ("as_const", "@.as_const()", kind)]
             if d <= 3:
